@@ -35,6 +35,7 @@ def mul_groups(tier, props=("C01", "C09", "C10", "C11", "C12")):
     add("MUL_NAIVE", 2, 30, 3, None)
     add("MUL_NAIVE", 2, 20, 20, "view1", "view0", "owned")
     add("MUL_NAIVE", 2, 65, 66, None, "owned", "view1")
+    add("MUL_NAIVE", 2, 10, 70, "view1", "owned", "owned")   # supplied destination with arbitrary prior content, n >= 54
     add("ADDMUL_NAIVE", 3, 30, 3, "view1")
     add("ADDMUL_NAIVE", 2, 10, 70, "owned", "view1", "view0")
     add("MUL_VA", 2, 70, 130, "owned")
